@@ -16,7 +16,7 @@ NodeSt(n) ==
 
 EdgeOK(k) ==
     LET e == G.edges[k]
-        d == Step(st, e.a.i)
+        d == Sched(st, e.a.i)
         n == NodeSt(e.dst)
     IN  /\ Chk(e.a.i \in Runnable(st), <<"EDGE_REJECTED", k, "thread-not-runnable-in-spec", e.a.i>>)
         /\ \A f \in DOMAIN n : Chk(d[f] = n[f], <<"EDGE_REJECTED", k, "state", f, "spec", d[f], "impl", n[f]>>)
